@@ -736,7 +736,101 @@ def check_sub_lag_stops(u):
     return obligations, failures, samples
 
 
-CHECKS = {"sub_lag_stops": check_sub_lag_stops, "single_snapshot": check_single_snapshot, "offer_loops": check_offer_loops, "speedy_prealloc": check_speedy_prealloc, "from_conn": check_from_conn, "sql_actor_scoping": check_sql_actor_scoping, "local_write_sequence": check_local_write_sequence, "insert_local_changes": check_insert_local_changes, "authz_layer": check_authz_layer, "readonly_guard": check_readonly_guard, "read_pool": check_read_pool}
+EXITS_DIR = os.path.join(os.path.dirname(os.path.dirname(os.path.abspath(__file__))), "exits")
+
+
+def _uncovered_exits(templates):
+    """For every repository function of which some template extracts FRAGMENTS: the early exits (`continue` / `break` / `return`) of that
+    function which lie outside every extracted span, keyed by the header of the innermost enclosing block (line-number independent)."""
+    from . import extract
+    import tempfile
+    spans = {}
+    for t in templates:
+        with tempfile.NamedTemporaryFile("w", suffix=".rs", delete=True) as tmp:
+            report, _lm = extract.render(os.path.join(os.path.dirname(EXITS_DIR), t), tmp.name)
+        for r in report:
+            if r.get("mode") == "fragment":
+                spans.setdefault((r["file"], r.get("impl"), r["fn"], r.get("nth", 1)), []).append(tuple(r["span"]))
+    out = {}
+    for (file, impl, fn, nth), sp in sorted(spans.items(), key=lambda kv: (kv[0][0], kv[0][2])):
+        src = open(os.path.join(REPO, file)).read()
+        msk = mask(src)
+        lo, hi = 0, len(src)
+        if impl:
+            cands = list(find_impls(src, msk, impl))
+            if not cands:
+                raise LostAnchor("impl /%s/ not found in %s" % (impl, file))
+            got = None
+            for (s_, o_, c_) in cands:
+                try:
+                    got = find_fn(src, msk, fn, o_ + 1, c_, nth)
+                    break
+                except LostAnchor:
+                    continue
+            if not got:
+                raise LostAnchor("fn %s not found" % fn)
+            s0, o, c = got
+        else:
+            s0, o, c = find_fn(src, msk, fn, lo, hi, nth)
+        keys = []
+        for m in re.finditer(r"\b(continue|break|return)\b", msk[o:c]):
+            pos = o + m.start()
+            if any(a <= pos < b for (a, b) in sp):
+                continue
+            # innermost enclosing `{`
+            depth = 0
+            k = pos
+            while k > o:
+                k -= 1
+                ch = msk[k]
+                if ch == "}":
+                    depth += 1
+                elif ch == "{":
+                    if depth == 0:
+                        break
+                    depth -= 1
+            # header = text from the previous `;`, `{` or `}` to this `{`
+            h = k
+            while h > o and msk[h - 1] not in ";{}":
+                h -= 1
+            header = re.sub(r"\s+", " ", msk[h:k]).strip()
+            stmt_end = pos
+            while stmt_end < c and msk[stmt_end] not in ";,}":
+                stmt_end += 1
+            keys.append(("%s :: %s" % (header[-160:], re.sub(r"\s+", " ", msk[pos:stmt_end]).strip()[:80]), src.count("\n", 0, pos) + 1))
+        out["%s::%s" % (file, fn)] = keys
+    return out
+
+
+def check_exits_covered(u):
+    """Composition guard for fragment-based units: a property argued fragment by fragment only composes if the control flow between the
+    fragments is what it was when the fragments were chosen.  Obligation per function: every early exit outside the spans under contract
+    is one recorded in the committed baseline /verif/exits/<unit>.json.  A NEW early exit outside every span is *not* a violation (it may be
+    harmless) — it makes this unit undecided (exit 2), so that such an edit is never reported as verified."""
+    import json
+    base_path = os.path.join(EXITS_DIR, u["name"] + ".json")
+    if not os.path.exists(base_path):
+        raise LostAnchor("no committed baseline %s" % base_path)
+    base = json.load(open(base_path))
+    cur = _uncovered_exits(u["templates"])
+    obligations, samples = [], []
+    for fnkey, keys in cur.items():
+        name = "no-new-early-exit-outside-the-spans-under-contract:%s" % fnkey.split("/")[-1]
+        obligations.append(name)
+        allowed = list(base.get(fnkey, []))
+        for k, ln in keys:
+            if k in allowed:
+                allowed.remove(k)
+            else:
+                raise Unsupported("%s:%d: early exit `%s` lies outside every span under contract and is not in the baseline — the per-fragment argument "
+                                  "no longer covers this function's control flow (undecided, not a violation)" % (fnkey.split("::")[0], ln, k))
+        samples.append("%s: %d early exits outside the spans, all in the baseline" % (fnkey, len(keys)))
+    if not obligations:
+        raise LostAnchor("no fragment extraction found in %s" % u["templates"])
+    return obligations, [], samples
+
+
+CHECKS = {"exits_covered": check_exits_covered, "sub_lag_stops": check_sub_lag_stops, "single_snapshot": check_single_snapshot, "offer_loops": check_offer_loops, "speedy_prealloc": check_speedy_prealloc, "from_conn": check_from_conn, "sql_actor_scoping": check_sql_actor_scoping, "local_write_sequence": check_local_write_sequence, "insert_local_changes": check_insert_local_changes, "authz_layer": check_authz_layer, "readonly_guard": check_readonly_guard, "read_pool": check_read_pool}
 
 
 def run_unit(prop, u, tier, ctx, here):
